@@ -11,6 +11,8 @@ import (
 	"dsim/core"
 	"dsim/simos"
 	dstore "dsim/store"
+
+	"github.com/dolthub/go-mysql-server/sql"
 )
 
 // C28 — auto-increment values are never handed out twice. Sessions on several branches of one
@@ -38,15 +40,19 @@ type AIBody struct {
 	Start      []string `json:"start"` // starting branch per session
 	Ops        []AIOp   `json:"ops"`
 	Race       *AIRace  `json:"race,omitempty"` // concurrent inserters under the S1 scheduler (autoinc_race.go)
+	// LockMode: @@innodb_autoinc_lock_mode the server is configured with (2 interleaved - the default -,
+	// 1 consecutive, 0 traditional: the last two hold a table-level lock for the whole statement)
+	LockMode int `json:"lock_mode"`
 }
 
 func (AI) Generate(seed uint64, tier string) *core.Scenario {
 	r := core.NewRand(seed)
+	lockMode := []int{2, 2, 1, 0}[core.NewRand(seed^0x28).Intn(4)]
 	if r.Chance(1, 4) {
-		raw, _ := json.Marshal(AIBody{Race: genAIRace(r)})
+		raw, _ := json.Marshal(AIBody{Race: genAIRace(r), LockMode: lockMode})
 		return &core.Scenario{Property: "C28", Harness: "C28", Seed: seed, Tier: tier, Body: raw}
 	}
-	b := AIBody{NSess: r.Range(2, 4)}
+	b := AIBody{NSess: r.Range(2, 4), LockMode: lockMode}
 	brs := []string{"main", "b1"}
 	for i := 0; i < b.NSess; i++ {
 		b.Autocommit = append(b.Autocommit, r.Chance(1, 2))
@@ -119,6 +125,13 @@ func (AI) Execute(t *testing.T, sc *core.Scenario) *core.Result {
 	defer simos.RemoveTree(root)
 	sos.Install()
 	defer simos.Uninstall()
+	// the lock mode is server configuration: it is read when the database's sequence tracker is made
+	if err := sql.SystemVariables.AssignValues(map[string]interface{}{"innodb_autoinc_lock_mode": int64(b.LockMode)}); err != nil {
+		res.Panic = "setting innodb_autoinc_lock_mode: " + err.Error()
+		return res
+	}
+	defer sql.SystemVariables.AssignValues(map[string]interface{}{"innodb_autoinc_lock_mode": int64(2)})
+	res.Probe(fmt.Sprintf("knob:innodb_autoinc_lock_mode=%d", b.LockMode))
 	w, err := NewWorld(ctx, root)
 	if err != nil {
 		res.Panic = "world: " + err.Error()
@@ -143,7 +156,7 @@ func (AI) Execute(t *testing.T, sc *core.Scenario) *core.Result {
 	}
 	if b.Race != nil {
 		setup.End()
-		runAIRace(ctx, w, b.Race, res)
+		runAIRace(ctx, w, b.Race, b.LockMode, res)
 		return res
 	}
 	var ss []*Sess
